@@ -501,7 +501,38 @@ def h19c(c, n_events=3):
                 c.cover("ignored")
 
 
+def h19d(c):
+    """round trip through the REAL adoption path (process_current_orders -> create_order_from_current) of a second instance, for
+    every accepted separator class - including separators that are hex digits occurring inside the strategy hash - the update is
+    attributed to the strategy and order that produced the reference (complements the AST translation: works whatever shape the
+    parsing code takes)"""
+    with cm.config_set(simulated=False):
+        hsh = c.choose("strategy_hash", ["abcdef0123456", "0000000000000", "1b2da2ce8e99b"])
+        sep = c.choose("separator", ["-", "~", ":", "a", "0", "b", "9", "e", "Z", "f"])
+        oid = c.choose("order_id", ["1", "139473958720000000", "9" * 18])
+        fl, client, (strategy,) = cm.new_live()
+        strategy.name_hash = hsh
+        first = BaseStrategy(market_filter={}, name="x")
+        first.name_hash = hsh
+        o = Trade(cm.MID, 1, 0, first).create_order("BACK", cm.LimitOrder(2.0, 2.0), sep=sep)
+        o.id = oid
+        ref = o.customer_order_ref
+        c.ob("reference-length<=32", len(ref) <= 32)
+        with c.guard("adoption"):
+            fl._process_current_orders(cm.current_orders_event(client, [cm.current_order(ref, "555")]))
+        m = fl.markets.markets.get(cm.MID)
+        got = [x for x in (m.blotter if m else [])]
+        c.ob("adopted-into-producing-strategy", len(got) == 1 and got[0].trade.strategy is strategy and got[0].id == oid and got[0].bet_id == "555",
+             found=len(got), id=got[0].id if got else None)
+        # a second delivery finds the same order again (no duplicate)
+        with c.guard("adoption-2"):
+            fl._process_current_orders(cm.current_orders_event(client, [cm.current_order(ref, "555")]))
+        c.ob("second-delivery-no-duplicate", len(list(fl.markets.markets[cm.MID].blotter)) == 1 if m else False)
+        c.cover("round-trip")
+
+
 HARNESSES = [
+    Harness("H19d", h19d, pattern="exhaustive choice product through the real adoption path", requires=["round-trip"], selfcheck=False),
     Harness("H19c", h19c, quick=dict(n_events=3), thorough=dict(n_events=4), pattern="P3 bounded history (schedule symbolic, strings concrete)",
             requires=["adopted", "ignored"], selfcheck=False),
     Harness("H19", h19, pattern="AST->SMT (z3 sequences)", requires=["reference"], selfcheck=False,
